@@ -666,3 +666,30 @@ func Trunc(s string, n int) string {
 	}
 	return s[:n] + "…"
 }
+
+// NewModule writes go.mod (requiring testify) and go.sum for a scratch module at root.
+func NewModule(root, modpath string) {
+	WriteFiles(root, map[string]string{
+		"go.mod": fmt.Sprintf(ScratchGoMod, modpath),
+		"go.sum": GoSum(),
+	})
+}
+
+// ReadTree returns every regular file under root (relative path -> content), for replay dirs.
+func ReadTree(root string) map[string]string {
+	out := map[string]string{}
+	_ = filepath.Walk(root, func(p string, info os.FileInfo, err error) error {
+		if err != nil || info.IsDir() || !info.Mode().IsRegular() {
+			return nil
+		}
+		rel, _ := filepath.Rel(root, p)
+		if rel == "go.sum" {
+			return nil
+		}
+		if b, err := os.ReadFile(p); err == nil && len(b) < 200_000 {
+			out[rel] = string(b)
+		}
+		return nil
+	})
+	return out
+}
